@@ -46,6 +46,26 @@ static void die(const char *what, uint64_t a, uint64_t b, uint64_t c, uint64_t d
 	__builtin_trap();
 }
 
+static uint64_t gcd64(uint64_t a, uint64_t b)
+{
+	while (b) { uint64_t t = a % b; a = b; b = t; }
+	return a;
+}
+
+static uint64_t modinv(uint64_t a, uint64_t n)
+{
+	/* inverse of a modulo n (gcd must be 1), extended Euclid in 128-bit signed arithmetic */
+	__int128 t = 0, newt = 1, r = n, newr = a % n;
+	while (newr != 0)
+	{
+		__int128 q = r / newr, tmp;
+		tmp = t - q * newt; t = newt; newt = tmp;
+		tmp = r - q * newr; r = newr; newr = tmp;
+	}
+	if (t < 0) t += n;
+	return (uint64_t)t;
+}
+
 static uint64_t rd64(const uint8_t *p)
 {
 	uint64_t v;
@@ -102,6 +122,25 @@ int LLVMFuzzerTestOneInput(const uint8_t *data, size_t size)
 	}
 	else
 		idx = idx % lim;
+	if ((data[39] & 32) && n > 1)
+	{
+		/* picosecond part within c/n of an integer: rem*10^12 = -c (mod n) */
+		uint64_t nn = n, dd = d, c = data[38] % 8, rem, k0;
+		while (gcd64(nn, 10) != 1) nn--;
+		if (nn < 2) nn = 3;
+		while (gcd64(dd, nn) != 1) dd++;
+		if ((u128)nn * dd < ((u128)1 << 64))
+		{
+			n = nn; d = dd;
+			t = ((u128)YEAR9999 * n) / d;
+			lim = t > 0x7fffffffffffffffULL ? 0x7fffffffffffffffULL : (uint64_t)t;
+			if (lim == 0) lim = 1;
+			rem = (uint64_t)(((u128)((n - c % n) % n) * modinv(PS % n, n)) % n);
+			k0 = (uint64_t)(((u128)rem * modinv(d % n, n)) % n);
+			idx = k0 + (lim > n ? ((rd64(data) % (lim / n)) * n) : 0);
+			if (idx >= lim) idx = k0 % lim;
+		}
+	}
 	s = rd64(data + 16) % YEAR9999;
 	ps = rd64(data + 24) % PS;
 	if (data[39] & 8) ps = (ps / 1000000000ULL) * 1000000000ULL;
